@@ -174,7 +174,7 @@ func TestC18Body(t *testing.T) {
 			exp.Raw = ""
 		}
 		send := func() (*bodySeen, string) {
-			cl := client.New().SetDial(func(string) (net.Conn, error) { return ln.Dial() }).SetTimeout(5 * time.Second)
+			cl := client.New().SetDial(func(string) (net.Conn, error) { return ln.Dial() }).SetTimeout(20 * time.Second)
 			rq := cl.R()
 			fi := 0
 			fcnt := map[string]int{}
